@@ -410,6 +410,7 @@ class Oracle:
         value_eqs = []
         bindings = []
         self.max_candidates = 0
+        self.sole_decl = {}
         for (_, path, k, b, dims, alias_mods) in leaves:
             for a in ATTRS + (None,):
                 self.max_candidates = max(self.max_candidates, len(self.candidates(target, path, a, alias_mods)))
@@ -422,6 +423,10 @@ class Oracle:
                     bindings.append((path, a, hit[0], hit[1], len(alias_mods), hit[2]))
             hit = self.lookup_attr(target, path, None, alias_mods)
             val = rename(hit[1], hit[0] or (), names) if hit is not None else None
+            if hit is not None and hit[2] == "decl" and tuple(hit[0]) == tuple(path[:-1]) and \
+                    len(self.candidates(target, path, None, alias_mods)) == 1:
+                # the declaration's own equation / binding, nobody competes: an equation of this instance
+                self.sole_decl[".".join(path)] = val
             if hit is not None:
                 bindings.append((path, None, hit[0], hit[1], len(alias_mods), hit[2]))
             name = ".".join(path)
@@ -646,6 +651,12 @@ def oracle_c07(lib, target, obs):
         return ("declaration equations (and unconnected-flow equations) are not one per bound non-parameter leaf: "
                 "missing %s, extra %s" % ([n for n in want if n not in got][:4], [n for n in got if n not in want][:4]),
                 want, got)
+    r = decl_rhs(obs, orc.sole_decl, set(v["name"] for v in vars_.values() if "flow" in v["prefixes"]))
+    for n in sorted(orc.sole_decl):
+        if r.get(n) != [orc.sole_decl[n]]:
+            return ("the declaration equation of %s (its own declaration's, not modified from anywhere) does not have "
+                    "its references renamed to the flat names of the variables of its instance" % n,
+                    [orc.sole_decl[n]], r.get(n))
     want = sorted(map(_key, orc.ieqs))
     got = sorted(_key(e) for e in obs.get("ieqs", []))
     if got != want:
@@ -654,6 +665,57 @@ def oracle_c07(lib, target, obs):
         return ("flat initial equations are not the renamed initial equations of every instance: missing %s, extra %s"
                 % (miss[:3], extra[:3]), want, got)
     return None
+
+
+def decl_rhs(flat, names, flow=()):
+    """{leaf: [right sides of its declaration equations, and its value if it is a parameter]} for
+    the leaves in `names`, of a flat model in canonical form (either side)."""
+    out = {}
+    for e in flat["eqs"]:
+        if is_sym_eq(e) and e[0][1] in names:
+            out.setdefault(e[0][1], []).append(e[1])
+    for n in flow:
+        if n in out and ["num", 0] in out[n]:
+            out[n].remove(["num", 0])            # the unconnected-flow equation
+            if not out[n]:
+                del out[n]
+    for v in flat["vars"]:
+        if v["name"] in names and v.get("value") is not None:
+            out.setdefault(v["name"], []).append(v["value"])
+    return out
+
+
+def compete_shape(lib, target):
+    """Labels of the competing-modification input classes a library contains (distribution buckets)."""
+    out = set()
+    orc = Oracle(lib)
+    try:
+        orc.flat(target)
+    except Reject:
+        return out
+    t = tuple(target.split("."))
+    for it in orc.instances(t):
+        if it[0] != "leaf":
+            continue
+        path, al = it[1], it[5]
+        cands = {a: orc.candidates(t, path, a, al) for a in ATTRS + (None,)}
+        outer = any(w is not None and len(w) < len(path) - 1 for cs in cands.values() for (w, _, _) in cs)
+        own_refs = any(w is not None and len(w) == len(path) - 1 and kd == "decl" and expr_refs(e)
+                       for cs in cands.values() for (w, e, kd) in cs)
+        if len(path) >= 2 and outer and own_refs:
+            out.add("declaration-with-references-also-modified-from-outside")
+            if ".".join(path) in orc.sole_decl and expr_refs(cands[None][0][1]):
+                out.add("declaration-equation-with-references-attribute-modified-from-outside")
+        for a, cs in cands.items():
+            for w in set(w for (w, _, _) in cs if w is not None):
+                n_ext = sum(1 for (w2, _, kd) in cs if w2 == w and kd == "ext")
+                if n_ext >= 2:
+                    out.add("same-%s-in-two-extends-clauses-of-a-chain" % ("attribute" if a else "binding"))
+                if n_ext >= 1 and any(w2 == w and kd == "decl" for (w2, _, kd) in cs):
+                    out.add("extends-clause-over-declaration")
+            if len(set(w for (w, _, _) in cs if w is not None)) >= 2:
+                out.add("same-%s-at-two-component-levels" % ("attribute" if a else "binding"))
+    return out
 
 
 def _key(e):
@@ -785,8 +847,15 @@ class Gen:
     inner and in the outer scope.  Every site keeps its *semantic* modification list in `sites`, so
     that the same library can be spelled in several ways."""
 
-    def __init__(self, rng, n_classes=5, mod_rate=0.6, p_nested=0.3, p_pkg=0.5, ref_rate=0.5, p_scenario=0.2):
+    def __init__(self, rng, n_classes=5, mod_rate=0.6, p_nested=0.3, p_pkg=0.5, ref_rate=0.5, p_scenario=0.2,
+                 p_compete=0.0):
+        """p_compete > 0 (the "competing" streams of C07/C08): a modification site prefers, with that
+        probability, a leaf that already has a binding / modification further in (declaration, base
+        class's extends clause, inner component) and then mostly the very attribute set there; more
+        declarations get a declaration equation over sibling variables.  With p_compete = 0 the
+        generator draws exactly the random numbers it drew before the parameter existed."""
         self.p_scenario = p_scenario
+        self.p_compete = p_compete
         self.rng = rng
         self.lib = []
         self.done = []        # completed long classes (usable as component type / base), absolute paths
@@ -950,11 +1019,11 @@ class Gen:
         # modifications: extends clauses, then declarations
         for e in c["extends"]:
             sem = self.gen_sem(orc, e["_base"], scal, arrs)
-            self.sites.append((e, sem))
+            self.add_site(e, sem)
         for k in c["comps"]:
             if "_cls" in k:
                 sem = self.gen_sem(orc, k["_cls"], scal, arrs, avoid_alias=k.get("_inst_found", False))
-                self.sites.append((k, sem))
+                self.add_site(k, sem)
             else:
                 sem = []
                 num = k["type"] in ("Real", "Integer") or k.get("_abase") in ("Real", "Integer")
@@ -963,7 +1032,7 @@ class Gen:
                         others = [r for r in scal if r != [[k["name"], []]]]
                         if set(k["prefixes"]) & {"parameter", "constant"}:
                             sem.append(((), None, self.num_expr(others if rng.random() < 0.3 else [], [])))
-                        elif rng.random() < 0.3:
+                        elif rng.random() < (0.5 if self.p_compete else 0.3):
                             # declaration equation of a variable: literals (0, 0.0, ...) as likely as expressions
                             sem.append(((), None, self.num_expr(others if rng.random() < 0.5 else [], arrs)))
                         for a in rng.sample(NUM_ATTRS, rng.choice([0, 0, 1, 1, 2])):
@@ -1026,6 +1095,11 @@ class Gen:
             v = rng.choice(own_arr)
             c["ieqs"].append([["ref", [[v["name"], [self.sub_expr(None, ints, offs)]]]], ["num", rng.randint(0, 9)]])
         return me
+
+    def add_site(self, holder, sem):
+        self.sites.append((holder, sem))
+        if self.p_compete:
+            holder["mods"] = spell(sem, "S")      # visible to later sites (respelled by `spelled`)
 
     def sub_expr(self, i, ints, offs):
         """a subscript of at most two levels: i, i + n, i + off[n], off[i], off[n] + i, n, a.n, literal"""
@@ -1140,10 +1214,28 @@ class Gen:
         except Reject:
             return []
         sem, used = [], set()
+        hot = []          # numeric leaves that already have a binding / modification further in, with the attributes set
+        if self.p_compete:
+            for it in leaves:
+                if it[3] in ("Real", "Integer"):
+                    try:
+                        set_ = [a for a in NUM_ATTRS + (None,) if orc.candidates(cls, it[1], a, [])]
+                    except Reject:
+                        set_ = []
+                    if it[4]:
+                        set_ = [a for a in set_ if a is not None]
+                    if set_:
+                        hot.append((it, set_))
         for _ in range(rng.choice([1, 1, 2, 3])):
             if not leaves:
                 break
-            _, path, k, b, dims, _al = rng.choice(leaves)
+            same = ()
+            if hot and rng.random() < self.p_compete:
+                (_, path, k, b, dims, _al), set_ = rng.choice(hot)
+                if rng.random() < 0.6:
+                    same = (rng.choice(set_),)
+            else:
+                _, path, k, b, dims, _al = rng.choice(leaves)
             if avoid_alias and _al and rng.random() < 0.85:
                 continue          # (a local class's type-definition leaves modified from outside: C07-F2)
             if b in ("Boolean", "String"):
@@ -1161,6 +1253,8 @@ class Gen:
                 attr = None if r < 0.6 else rng.choice(NUM_ATTRS)
             else:
                 attr = None if r < 0.08 else rng.choice(NUM_ATTRS + ("fixed",) if r < 0.9 else ("unit",))
+            if same:
+                attr = same[0]
             if (path, attr) in used:
                 continue
             used.add((path, attr))
